@@ -68,6 +68,14 @@ CHECKS = {
    "Stateless preemption-bounded search over the interleavings of two (thorough: three) searcher goroutines and a writer on a real file-backed shard (48 points, shared unlimited cache, cold / partially warm / warm): scheduling points are the searchers' storage operations (storage proxy installed through the verif accessor hook: transaction begin, bucket open, every 8th Get, end), every lock/atomic operation of the real cache manager (import-rewrite overlay) and the writer's transaction begin / function-returned / commit-finished. Quick: 42 programs without preemption, 8 core programs with <=1 (20k complete executions); thorough: all programs <=1, core <=2. Oracle: no storage use after a transaction ended (recorded by the proxy instead of SIGSEGV), no failed search, every returned (id, document) belongs to a committed state that existed during the search, returned documents do not alias ended transactions, final point store/graph = sequential model in commit order, warm = cold answers. Every violating schedule is re-executed twice before it is believed.",
    "the writer's individual storage operations are not scheduling points; one cached index in the schema; map-iteration order inside the code under test makes some prefixes unreplayable (retried, counted, never a verdict) so quick runs are usually not marked exhaustive",
    "stateless DFS over schedules of the real code under a controlled scheduler + storage proxy, iterative preemption bounding", "DESIGN.md §4 C09"),
+ "C15": (True, "seqx", "model_checking",
+   "(a) exhaustive enumeration of the argument space of the real distributePoints through the verif export hook (0..3 existing shards x fill levels at the limits x batches of 0..6 points of two sizes x count/size limits x shard-creation failure; 567k cases) against the statement (contiguous disjoint covering ranges, no limit exceeded, fresh shards exactly for the overflow) and a greedy reference; (b) breadth-first search, de-duplicated on shard fill levels, to depth 5 (thorough 7) over insert/create/delete request histories on a real node for 4 limit/quota configurations: totals, per-shard maxima, quota refusals without side effects, each stored point found exactly once.",
+   "single server; the duplicate-id case is checked through the accounting equation of the statement only (ids unique per collection is the client's obligation)",
+   "bounded-exhaustive input enumeration + explicit-state BFS over request histories vs reference", "DESIGN.md §4 C15"),
+ "C16": (True, "seqx", "model_checking",
+   "Non-interference by lock-step differential execution: breadth-first search to depth 6 (thorough 8), de-duplicated on the complete inventory, over the product alphabet of two users (list; per collection create/get/delete/insert/insert3/update/search/filter-search/delete-point) on one real node through the assembled HTTP handler chain, for 10 user-id pairs (prefixes, key-concatenation collisions, '.', '..', space, percent, backslash, non-ASCII, trailing space); each user's sub-history runs alone on its own node and every response (status + canonical body) of the shared run must equal the solitary one; the shard-file inventory of the shared node must equal the union of the solitary ones.",
+   "whole requests are the unit of interleaving (node-database writes are serialised by bbolt); user ids without '/'",
+   "explicit-state BFS over interleaved two-tenant histories of the real handlers with a differential (non-interference) oracle", "DESIGN.md §4 C16"),
 }
 
 props = [json.loads(l) for l in open(os.path.join(HERE, "properties.jsonl"))]
